@@ -234,6 +234,17 @@ func (c *gctx) expr(depth int, consuming bool) *Expr {
 				if c.cfg.Lookahead && c.chance(1, 3) {
 					body = &Expr{Kind: And, Subs: []*Expr{c.terminal()}}
 				}
+				if c.cfg.Preds && c.chance(1, 2) {
+					// a loop that consumes nothing and still ends: its body asks user code
+					pk := AndCode
+					if c.chance(1, 3) {
+						pk = NotCode
+					}
+					body = &Expr{Kind: pk}
+					if c.chance(1, 2) {
+						body = &Expr{Kind: Seq, Subs: []*Expr{{Kind: pk}, {Kind: Opt, Subs: []*Expr{c.terminal()}}}}
+					}
+				}
 				return &Expr{Kind: k, Subs: []*Expr{body}}
 			}
 			return &Expr{Kind: Star, Subs: []*Expr{c.expr(depth-1, !c.cfg.NullableLoops)}}
@@ -376,7 +387,23 @@ func (c *gctx) stateProbe(depth int, consuming bool) *Expr {
 				body = &Expr{Kind: Action, Subs: []*Expr{body}}
 			}
 		}
-		return &Expr{Kind: Seq, Subs: []*Expr{{Kind: Opt, Subs: []*Expr{body}}, observer(c.terminal())}}
+		wrap := Opt
+		if c.cfg.Lookahead && c.chance(1, 3) {
+			// a lookahead directly under ? or *: nothing but the lookahead itself
+			// stands between the state change in its operand and the observer
+			lk := Not
+			if c.chance(1, 3) {
+				lk = And
+			}
+			body = &Expr{Kind: lk, Subs: []*Expr{body}}
+			if c.chance(1, 3) {
+				wrap = Star
+				if lk == And {
+					wrap = Opt // (&e)* never ends
+				}
+			}
+		}
+		return &Expr{Kind: Seq, Subs: []*Expr{{Kind: wrap, Subs: []*Expr{body}}, observer(c.terminal())}}
 	case 4: // repetition whose iterations change state and may fail late
 		body := &Expr{Kind: Seq, Subs: []*Expr{c.terminal(), {Kind: State}, pred()}}
 		if body.Subs[0].Kind == Lit && body.Subs[0].Text == "" {
